@@ -8,6 +8,7 @@ import (
 	"io"
 	"net/http"
 	"net/url"
+	"strings"
 
 	"golang.org/x/mod/sumdb/note"
 	"golang.org/x/time/rate"
@@ -83,7 +84,7 @@ func PathEscape(s string) string { return UFStr("pathEscape", s) }
 
 type reqInfo struct {
 	url  string
-	body []byte
+	body io.Reader
 }
 
 var reqs = map[*http.Request]*reqInfo{}
@@ -96,9 +97,7 @@ func NewRequest(method, u string, body io.Reader) (*http.Request, error) {
 	}
 	r := &http.Request{Method: method}
 	ri := &reqInfo{url: u}
-	if body != nil {
-		ri.body = ReaderBytes(body)
-	}
+	ri.body = body
 	reqs[r] = ri
 	return r, nil
 }
@@ -118,10 +117,22 @@ func ClientDo(c *http.Client, r *http.Request) (*http.Response, error) {
 	if ri == nil {
 		Unsupported("Client.Do on a request that was not built by http.NewRequest")
 	}
-	Log(Ev{K: "http.Do", B: [][]byte{[]byte(r.Method), []byte(ri.url), ri.body}})
+	// what the transport would send is what the body reader holds NOW
+	var sent []byte
+	if ri.body != nil {
+		sent = ReaderBytes(ri.body)
+	}
+	Log(Ev{K: "http.Do", B: [][]byte{[]byte(r.Method), []byte(ri.url), sent}})
 	if Bool("http.fails") {
+		// a transport error may strike before or after the request body was read
+		if ri.body != nil && Bool("http.bodyReadBeforeFailure") {
+			ReaderDrain(ri.body)
+		}
 		Log(Ev{K: "http.resp", U: []uint64{0, 0}, B: [][]byte{nil}})
 		return nil, errTransport
+	}
+	if ri.body != nil {
+		ReaderDrain(ri.body) // a request that was answered has been written completely
 	}
 	final := &http.Request{Method: r.Method, URL: URLOf(ri.url)}
 	if Bool("http.redirected") {
@@ -224,7 +235,11 @@ func JSONList(elems ...any) []byte {
 // ---------- misc contracts ----------
 
 //wsym:replace github.com/transparency-dev/formats/log.ID
-func LogID(origin string) string { return UFStr("logID", origin) }
+func LogID(origin string) string {
+	id := UFStr("logID", origin)
+	Assume(strings.ToLower(id) == id) // hex digests are lower case
+	return id
+}
 
 //wsym:replace (*golang.org/x/time/rate.Limiter).Allow
 func LimiterAllow(l *rate.Limiter) bool {
